@@ -493,7 +493,7 @@ pub fn run(tier: &str, mode: Mode) -> i32 {
     // (c) every string of the seven token shapes with arbitrary ranks, bare and with a weight
     {
         let shapes = vlib::report::thin(shape_strings(), 8);
-        let step = if thorough { 1 } else { 5 };
+        let step = if thorough { 1 } else { 3 };
         let chunk = 256;
         let idx: Vec<usize> = (0..shapes.len()).collect();
         let nch = (idx.len() + chunk - 1) / chunk;
@@ -528,7 +528,7 @@ pub fn run(tier: &str, mode: Mode) -> i32 {
             }
         }
         rep.machine(st_all.nonempty_ranges.max(1), st_all.stage2.max(1), st_all.strings);
-        rep.sub("token-shapes", "EVERY string of the seven token shapes with arbitrary ranks: 169 x {none,s,o} x {none,+}; all 13^4 'XY-ZW'; all 13^4 x 4 'XY[so]-ZW[so]'; all 52^2 card-pair shapes (146,523 strings), bare and (all in thorough, every fifth in quick) with ':0.5', through the token and range parsers and the second stage; distinct_nontrivial = strings that parse", st_all.strings, st_all.parsed_tokens.max(st_all.nonempty_ranges), true, json!({"shape_strings": shapes.len(), "tokens_parsed": st_all.parsed_tokens, "non_empty_ranges": st_all.nonempty_ranges, "second_stage_operations": st_all.stage2}));
+        rep.sub("token-shapes", "EVERY string of the seven token shapes with arbitrary ranks: 169 x {none,s,o} x {none,+}; all 13^4 'XY-ZW'; all 13^4 x 4 'XY[so]-ZW[so]'; all 52^2 card-pair shapes (146,523 strings), bare and (all in thorough, every third in quick) with ':0.5', through the token and range parsers and the second stage; distinct_nontrivial = strings that parse", st_all.strings, st_all.parsed_tokens.max(st_all.nonempty_ranges), true, json!({"shape_strings": shapes.len(), "tokens_parsed": st_all.parsed_tokens, "non_empty_ranges": st_all.nonempty_ranges, "second_stage_operations": st_all.stage2}));
         rep.sample(json!({"inputs": ["22-AA", "KAs+", "2As+", "AsAs", "AKs-AQo"]}));
     }
 
@@ -589,7 +589,7 @@ pub fn run(tier: &str, mode: Mode) -> i32 {
         let mut variants: Vec<String> = vec![];
         for (i, sh) in shapes.iter().enumerate() {
             let short = sh.len() <= 4;
-            if !short && i % (if thorough { 8 } else { 96 }) != 0 {
+            if !short && i % (if thorough { 8 } else { 48 }) != 0 {
                 continue;
             }
             for suf in ["", ":0.5"] {
@@ -636,7 +636,7 @@ pub fn run(tier: &str, mode: Mode) -> i32 {
                 push_viol(&mut rep, "shape-mutations", &s, &stage, &what, mode);
             }
         }
-        rep.sub("shape-mutations", "one-edit mutations of the token shapes, bare and with ':0.5' (all short and card-pair shapes, every 96th span shape in quick / 8th in thorough): each character deleted, each doubled, each adjacent pair swapped - e.g. 'AKs-AQ', 'AKss', 'AK-sAQs', 'AKs:.05'; distinct_nontrivial = mutations that still parse", st_all.strings, st_all.parsed_tokens + st_all.nonempty_ranges, false, json!({"mutations": variants.len()}));
+        rep.sub("shape-mutations", "one-edit mutations of the token shapes, bare and with ':0.5' (all short and card-pair shapes, every 48th span shape in quick / 8th in thorough): each character deleted, each doubled, each adjacent pair swapped - e.g. 'AKs-AQ', 'AKss', 'AK-sAQs', 'AKs:.05'; distinct_nontrivial = mutations that still parse", st_all.strings, st_all.parsed_tokens + st_all.nonempty_ranges, false, json!({"mutations": variants.len()}));
     }
 
     // (c3) junk around and inside the weight; weight spellings f32::from_str would accept but the notation does not
